@@ -919,6 +919,39 @@ theorem ndEvalRev_eq (get : List Nat → Res α) (G : List Nat → α) :
       congr 1
       exact (hv (fun i => ndValRev G (rt'.map (fun t => (t.1, t.2.1))) (i :: suffix))).symm
 
+theorem isNan_false (v : α) : isNan v = false := by
+  simp [isNan]
+
+/-- in a linear order no value is NaN: the guard of the first pass never fires -/
+theorem ndAnyNaN_eq (get : List Nat → Res α) (G : List Nat → α) :
+    ∀ (rc : List (Cell α)) (rt : List (Nat × α × Nat)), List.Forall₂ CellRel rc rt →
+    ∀ (suffix ssh : List Nat), List.Forall₂ (· < ·) suffix ssh →
+      (∀ ix, List.Forall₂ (· < ·) ix ((rt.map (·.2.2)).reverse ++ ssh) → get ix = .ok (G ix)) →
+      ndAnyNaN get rc suffix = .ok false := by
+  intro rc rt h
+  induction h with
+  | nil =>
+    intro suffix ssh hs hget
+    have := hget suffix (by simpa using hs)
+    simp [ndAnyNaN, this, Res.bind, isNan_false]
+  | @cons c t rc' rt' hct _ ih =>
+    intro suffix ssh hs hget
+    obtain ⟨l, d, s⟩ := t
+    have hget' : ∀ ix, List.Forall₂ (· < ·) ix ((rt'.map (·.2.2)).reverse ++ (s :: ssh)) →
+        get ix = .ok (G ix) := by
+      intro ix hix
+      apply hget
+      simpa [List.map_cons, List.reverse_cons, List.append_assoc] using hix
+    obtain ⟨hl, hc⟩ := hct
+    simp only at hl hc
+    rcases hc with rfl | ⟨pos, rfl, hpos, hv⟩
+    · simp only [ndAnyNaN]
+      rw [ih (l :: suffix) (s :: ssh) (List.Forall₂.cons (by omega) hs) hget',
+        ih ((l + 1) :: suffix) (s :: ssh) (List.Forall₂.cons hl hs) hget']
+      simp [Res.bind]
+    · simp only [ndAnyNaN]
+      exact ih (pos :: suffix) (s :: ssh) (List.Forall₂.cons hpos hs) hget'
+
 /-- what `cellOf` selects (a default where it fails) -/
 def selOf (g : List α) (p : α) : Nat × α :=
   match cellOf g p with
@@ -1086,6 +1119,16 @@ theorem linearN_ok (m : ND α) (G : List Nat → α) (pt : List α) (hv : ValidN
     rw [← this, heval]
   · rw [if_neg hvl, h2]
     simp only [h4, Bool.not_true, Bool.false_eq_true, if_false]
+    have hnan : ndAnyNaN m.get cells.reverse [] = .ok false :=
+      ndAnyNaN_eq m.get G cells.reverse (triples m.grid pt m.shape).reverse
+        (List.rel_reverse h3) [] [] List.Forall₂.nil (by
+          intro ix hix
+          apply hv.get_ok
+          rw [List.map_reverse, List.reverse_reverse, List.append_nil,
+            triples_shape m.grid m.shape pt hlen hlen2] at hix
+          exact hix)
+    rw [hnan]
+    simp only [Res.bind, Bool.false_eq_true, if_false]
     exact heval
 
 theorem forall₂_mem_right {β γ : Type} {R : β → γ → Prop} {l₁ : List β} {l₂ : List γ}
@@ -1739,6 +1782,128 @@ theorem new_rejects_short (underlying : α → α → α) (su : SpeedUnit) (s0 s
   · obtain ⟨_, _, _, _, _, _, _, _, _, h1, h2⟩ := new_inv underlying su s0 s1 sb gu g0 g1 gb ru m hm
     omega
   · exact he
+
+/-! ### `load_prediction_model` -/
+
+theorem Res.ok_bind {β γ : Type} (v : β) (f : β → Res γ) : (Res.ok v).bind f = f v := rfl
+theorem Res.err_bind {β γ : Type} (e : Err) (f : β → Res γ) : (Res.err e : Res β).bind f = .err e := rfl
+
+theorem fillRow_pure (u : α → α) : ∀ (ys : List α), fillRow (fun g => (.ok (u g) : Res α)) ys = .ok (ys.map u) := by
+  intro ys
+  induction ys with
+  | nil => rfl
+  | cons y ys ih => simp [fillRow, ih, Res.bind]
+
+theorem fillGrid_pure (u : α → α → α) (ys : List α) : ∀ (xs : List α),
+    fillGrid (fun s g => (.ok (u s g) : Res α)) xs ys = .ok (xs.map fun s => ys.map fun g => u s g) := by
+  intro xs
+  induction xs with
+  | nil => rfl
+  | cons x xs ih => simp [fillGrid, fillRow_pure (u x) ys, ih, Res.bind]
+
+/-- the sweep over a model that always answers: a value, at most the start value and at most every
+swept rate -/
+theorem findMinEnergyRateFrom_spec (m : PModel α) (hm : ∀ s su g gu, ∃ r u, m s su g gu = .ok (r, u)) :
+    ∀ (is : List Nat) (acc : α), ∃ v, findMinEnergyRateFrom m is acc = .ok v ∧ v ≤ acc ∧
+      ∀ i ∈ is, ∀ r u, m (ofNat i) .milesPerHour (zero : α) .percent = .ok (r, u) → v ≤ r := by
+  intro is
+  induction is with
+  | nil => intro acc; exact ⟨acc, rfl, le_refl _, by intro i hi; cases hi⟩
+  | cons i is ih =>
+    intro acc
+    obtain ⟨r, u, hr⟩ := hm (ofNat i) .milesPerHour (zero : α) .percent
+    obtain ⟨v, hv, hle, hall⟩ := ih (if r < acc then r else acc)
+    refine ⟨v, ?_, ?_, ?_⟩
+    · simp only [findMinEnergyRateFrom, hr]; exact hv
+    · split at hle
+      · exact le_trans hle (le_of_lt ‹_›)
+      · exact hle
+    · intro j hj r' u' hr'
+      rcases List.mem_cons.mp hj with rfl | hj'
+      · rw [hr] at hr'
+        cases hr'
+        split at hle
+        · exact hle
+        · exact le_trans hle (not_lt.mp ‹_›)
+      · exact hall j hj' r' u' hr'
+
+theorem smartcorePredict_total (rf : α → α → α) (su : SpeedUnit) (gu : GradeUnit) (ru : EnergyRateUnit) :
+    ∀ s qsu g qgu, ∃ r u, smartcorePredict rf su gu ru s qsu g qgu = .ok (r, u) :=
+  fun _ _ _ _ => ⟨_, _, rfl⟩
+
+/-- the `Smartcore` arm -/
+theorem load_smartcore_eq (rf : α → α → α) (su : SpeedUnit) (gu : GradeUnit) (ru : EnergyRateUnit)
+    (ideal adj : Option α) :
+    loadPredictionModel rf true .smartcore su gu ru ideal adj =
+      ((match ideal with
+        | some x => (.ok x : Res α)
+        | none => findMinEnergyRate (smartcorePredict rf su gu ru)).bind fun idealRate =>
+        .ok { model := smartcorePredict rf su gu ru, speedUnit := su, gradeUnit := gu, energyRateUnit := ru,
+              idealEnergyRate := idealRate,
+              realWorldEnergyAdjustment := match adj with | some a => a | none => one }) := by
+  unfold loadPredictionModel
+  rfl
+
+/-- the `Interpolate` arm over a random forest is `InterpolationSpeedGradeModel::new` over that forest,
+with the configured speed bounds / bins and grade bounds / bins in their places -/
+theorem load_interpolate_smartcore_eq (rf : α → α → α) (su : SpeedUnit) (gu : GradeUnit)
+    (ru : EnergyRateUnit) (s0 s1 : α) (sb : Nat) (g0 g1 : α) (gb : Nat) (ideal adj : Option α) :
+    loadPredictionModel rf true (.interpolate .smartcore s0 s1 sb g0 g1 gb) su gu ru ideal adj =
+      (SpeedGradeModel.new rf su s0 s1 sb gu g0 g1 gb ru).bind fun m =>
+        (match ideal with
+         | some x => (.ok x : Res α)
+         | none => findMinEnergyRate m.predict).bind fun idealRate =>
+          .ok { model := m.predict, speedUnit := su, gradeUnit := gu, energyRateUnit := ru,
+                idealEnergyRate := idealRate,
+                realWorldEnergyAdjustment := match adj with | some a => a | none => one } := by
+  obtain ⟨v, hv, _, _⟩ := findMinEnergyRateFrom_spec (smartcorePredict rf su gu ru)
+    (smartcorePredict_total rf su gu ru) sweepSpeeds f64Max
+  obtain ⟨xs, hx⟩ := linspace_ok s0 s1 sb
+  obtain ⟨ys, hy⟩ := linspace_ok g0 g1 gb
+  have hfun : ∀ (i a : α), (fun (s g : α) =>
+      (Record.predict (⟨smartcorePredict rf su gu ru, su, gu, ru, i, a⟩ : Record α)
+        s su g gu (one : α) ru.associatedDistanceUnit).bind fun e => (.ok e.1 : Res α))
+      = fun s g => .ok ((createEnergy (rf s g * a) ru (one : α) ru.associatedDistanceUnit).1) := by
+    intro i a
+    funext s g
+    simp [Record.predict, smartcorePredict, Res.bind, speed_convert_self, grade_convert_self]
+  unfold loadPredictionModel
+  simp only [loadPredictionModel, if_true, findMinEnergyRate, hv, Res.ok_bind, hx, hy]
+  rw [hfun, fillGrid_pure]
+  unfold SpeedGradeModel.new gridValue
+  simp only [hx, hy, Res.ok_bind]
+  cases hval : validate2 xs ys
+    (List.map (fun s => List.map (fun g => (createEnergy (rf s g * one) ru (one : α) ru.associatedDistanceUnit).1) ys) xs) <;> rfl
+
+/-- the model type names ONNX somewhere (the feature is off in this build) -/
+def ModelType.hasOnnx : ModelType α → Bool
+  | .smartcore => false
+  | .onnx => true
+  | .interpolate u _ _ _ _ _ _ => u.hasOnnx
+
+theorem load_unreadable (rf : α → α → α) : ∀ (mt : ModelType α) (su : SpeedUnit) (gu : GradeUnit)
+    (ru : EnergyRateUnit) (ideal adj : Option α),
+    loadPredictionModel rf false mt su gu ru ideal adj = .err .build := by
+  intro mt
+  induction mt with
+  | smartcore => intro su gu ru ideal adj; unfold loadPredictionModel; rfl
+  | onnx => intro su gu ru ideal adj; unfold loadPredictionModel; rfl
+  | interpolate u s0 s1 sb g0 g1 gb ih =>
+    intro su gu ru ideal adj
+    unfold loadPredictionModel
+    simp only [ih su gu ru none none, Res.err_bind]
+
+theorem load_onnx (rf : α → α → α) (fileOk : Bool) : ∀ (mt : ModelType α), mt.hasOnnx = true →
+    ∀ (su : SpeedUnit) (gu : GradeUnit) (ru : EnergyRateUnit) (ideal adj : Option α),
+    loadPredictionModel rf fileOk mt su gu ru ideal adj = .err .build := by
+  intro mt
+  induction mt with
+  | smartcore => intro h; cases h
+  | onnx => intro _ su gu ru ideal adj; unfold loadPredictionModel; rfl
+  | interpolate u s0 s1 sb g0 g1 gb ih =>
+    intro h su gu ru ideal adj
+    unfold loadPredictionModel
+    simp only [ih h su gu ru none none, Res.err_bind]
 
 end
 end Interp
